@@ -66,7 +66,13 @@ func init() {
 func (x *Exec) bstrOf(st *State, s string) string {
 	c := x.c
 	bs := c.sortOf(types.Typ[types.Uint8])
-	c.decl("uf:bstr", fmt.Sprintf("(declare-fun bstr4 ((Array Loc %[1]s) Loc %[2]s %[2]s) Str)\n(define-fun bstr ((h (Array Loc %[1]s)) (s Slice)) Str (bstr4 h (sl_arr s) (sl_off s) (sl_len s)))\n(assert (forall ((h (Array Loc %[1]s)) (a Loc) (o %[2]s) (n %[2]s)) (! (= (s_len (bstr4 h a o n)) n) :pattern ((bstr4 h a o n)))))", bs, c.idxSort()))
+	c.decl("uf:bstr", fmt.Sprintf("(declare-fun bstr4 ((Array Loc %[1]s) Loc %[2]s %[2]s) Str)\n(define-fun bstr ((h (Array Loc %[1]s)) (s Slice)) Str (bstr4 h (sl_arr s) (sl_off s) (sl_len s)))", bs, c.idxSort()))
+	if c.mentionsBound(s) {
+		// under a quantifier the length fact cannot be stated for the bound term: the general axiom is added instead
+		c.decl("uf:bstr-ax", fmt.Sprintf("(assert (forall ((h (Array Loc %[1]s)) (a Loc) (o %[2]s) (n %[2]s)) (! (= (s_len (bstr4 h a o n)) n) :pattern ((bstr4 h a o n)))))", bs, c.idxSort()))
+	} else {
+		c.assume(eq(sx("s_len", sx("bstr", x.get(st, "H:"+bs), s)), sx("sl_len", s)))
+	}
 	h := x.get(st, "H:"+bs)
 	t := sx("bstr", h, s)
 	// frame facts along the definition chain of the heap: a write to another object leaves the content of s unchanged
